@@ -47,12 +47,17 @@ func (c15) Gen(r *Rng, tier string, run int) *Trace {
 	if r.Bool(0.15) {
 		g.emit(Op{Obj: dst, M: "SetNoNesting", Args: []Val{vBool(true)}}, true)
 	}
+	holder := g.addCond("holds", 1, vRef(other, dNative)) // a Condition whose expression is a stack: not a Stack
 	val := func() Val {
-		switch r.Intn(12) {
+		switch r.Intn(14) {
 		case 0:
 			return vNil()
 		case 1:
 			return vRef(other, r.Intn(nDress))
+		case 2:
+			// the destination itself as an element of the source (contents are
+			// only ever observed through Len/Index, so the cycle is harmless)
+			return vRef(dst, r.PickInt(dNative, dAlias))
 		}
 		return g.plain()
 	}
@@ -85,7 +90,7 @@ func (c15) Gen(r *Rng, tier string, run int) *Trace {
 			case 1:
 				d = vRef(ro, r.Intn(nDress))
 			case 2:
-				d = []Val{vStr("foreign"), vInt(7), vNil(), vAwk(r.Intn(nAwk))}[r.Intn(4)]
+				d = []Val{vStr("foreign"), vInt(7), vNil(), vAwk(r.Intn(nAwk)), vRef(holder, r.PickInt(dNative, dAlias, dPtrNative)), vRef(holder, dNative)}[r.Intn(6)]
 			default:
 				d = vRef(dst, r.Intn(nDress))
 			}
